@@ -12,6 +12,7 @@ structure ConnObs where
   out : List Reply
   rawOut : Bool
   up : Bytes                    -- echo of what the upgraded handler read
+  late : Bool := false          -- served noticeably later than its own traffic explains while another peer was stalled
   refStatus : String            -- eof | err | up
   refOut : List Reply
   refUp : Bytes
@@ -20,6 +21,7 @@ structure ConnObs where
 def P_C13_conn (kind : String) (otherTokens : List String) (o : ConnObs) : Verdict :=
   if kind == "idle" then
     if o.out.isEmpty && o.up.isEmpty then none else some "bytes-for-a-silent-connection"
+  else if o.late then some "connection-delayed-by-another-connection's-unfinished-message"
   else if o.rawOut then some "unparsable-bytes-on-a-connection"
   else if o.out.any (fun rep => otherTokens.any fun t => mentions t rep) then some "reply-caused-by-another-connection"
   else if o.out != o.refOut then some "replies-differ-from-the-connection's-own-sequential-expectation"
